@@ -1,7 +1,7 @@
 """C16 — bearer tokens and resource identifiers are validated exactly on every entry path."""
 from ..facts import ty_adt, tystr, walk_ty, place_local, place_proj, op_place
 from ..cfg import CFG, Tracer, thaw
-from .. import dt, rx
+from .. import dt, rx, recog
 
 BT = "conjure_object::bearer_token::BearerToken"
 RID = "conjure_object::resource_identifier::ResourceIdentifier"
@@ -172,36 +172,20 @@ def run(ctx):
 
 
 def check_token_validator(ctx, co, vb):
-    cfg = CFG(vb)
     tr = Tracer(vb)
-    # locate the per-byte predicate and its table
-    alls = [(bb, t) for bb, t in vb.calls() if t["call"]["name"] in ("all",) and "iter" in t["call"]["def"]]
-    pred_id = None
-    for bb, t in alls:
-        for a in t["args"]:
-            f = (a.get("c") or {}).get("fn")
-            if f and f.get("local"):
-                pred_id = f["id"]
-        for a in t["args"]:
-            p = op_place(a)
-            if p is not None:
-                for src in tr.sources(a):
-                    if src[0] == "agg" and vb.blocks[src[1]]["s"][src[2]]["r"].get("agg") == "closure":
-                        pred_id = vb.blocks[src[1]]["s"][src[2]]["r"]["id"]
-    if not alls or pred_id is None:
-        ctx.violation("R16.2", vb.loc(), "token|shape", "token validator left the analysable fragment (no Iterator::all over the bytes with a local predicate)")
+    try:
+        an = recog.analyse(ctx.F, co, vb)
+    except recog.NotAnalysable as e:
+        ctx.violation("R16.2", vb.loc(), "token|shape", f"token validator left the analysable fragment: {e}")
         return
-    pb = co.body(pred_id)
-    accepted = predicate_set(ctx, co, pb)
-    if accepted is None:
-        ctx.violation("R16.2", pb.loc(), "token|predicate-shape", "byte predicate is neither a table lookup nor byte comparisons")
-        return
+    pb, accepted = an["pred"], an["accepted"]
     extra = sorted(accepted - TOKEN_CLASS)
     missing = sorted(TOKEN_CLASS - accepted)
+    show = lambda x: chr(x) if 32 < x < 127 else f"U+{x:04X}"
     ctx.check(not extra and not missing, "R16.2", pb.loc(), "token|byte-class",
-              f"token byte class differs from [A-Za-z0-9-._~+/]: wrongly accepted {[chr(x) if 32 < x < 127 else hex(x) for x in extra]}, wrongly rejected {[chr(x) for x in missing]}",
-              instance=f"token byte class: {len(accepted)} bytes == specification's 68")
-    # control shape: true iff stripped non-empty and all bytes valid; stripped = trim_end_matches(arg, '=')
+              f"token {'byte' if an['unit'] == 'u8' else 'character'} class differs from [A-Za-z0-9-._~+/]: wrongly accepted {[show(x) for x in extra[:8]]}, wrongly rejected {[show(x) for x in missing[:8]]}",
+              instance=f"token class over {an['unit']}: {len(accepted)} values accepted of {an['domain']} evaluated == specification's 68")
+    # stripped = trim_end_matches(arg, '='); both tests look at the stripped text
     trims = [(bb, t) for bb, t in vb.calls() if t["call"]["name"] == "trim_end_matches"]
     ok_trim = len(trims) == 1 and tr.root_locals(trims[0][1]["args"][0]) == {1}
     if ok_trim:
@@ -210,21 +194,16 @@ def check_token_validator(ctx, co, vb):
     other_trims = [t["call"]["name"] for _, t in vb.calls() if t["call"]["name"].startswith("trim") and t["call"]["name"] != "trim_end_matches"]
     ctx.check(ok_trim and not other_trims, "R16.2", vb.loc(), "token|padding", f"padding handling: expected exactly trim_end_matches(s, '=') (found {len(trims)} such calls, other trims {other_trims})",
               instance="padding: trailing '=' only")
-    true_blocks = [bb for bb, j, s in vb.stmts() if place_local(s["d"]) == 0 and "use" in s["r"] and (s["r"]["use"].get("c") or {}).get("bool") is True]
-    good = bool(true_blocks)
-    for tb in true_blocks:
-        conds = {}
-        for sbb, allowed, allv in dt.edge_conditions(cfg, tb):
-            atom = dt.switch_atom(vb, sbb)
-            pol = dt.bool_polarity(allowed)
-            if atom[0] == "call":
-                t = atom[1]
-                rooted = trims and ("call", trims[0][0]) in {s if s[0] != "field" else s[1] for s in Tracer(vb, through_calls=True).sources(t["args"][0])}
-                conds[t["call"]["name"]] = (pol, bool(rooted))
-        good = good and conds.get("is_empty") == (False, True) and conds.get("all") == (True, True) and len(conds) == 2
-    ctx.check(good, "R16.2", vb.loc(), "token|acceptance-shape",
-              "token validator must return true exactly when the '='-stripped text is non-empty and every byte of it passes the predicate (other shapes fail closed)",
-              instance="validator: true iff !stripped.is_empty() && stripped.bytes().all(valid)")
+    rooted = True
+    if trims:
+        trc = Tracer(vb, through_calls=True)
+        for _, t in (an["all_call"], an["empty_call"]):
+            srcs = {s if s[0] != "field" else s[1] for s in trc.sources(t["args"][0])}
+            rooted = rooted and ("call", trims[0][0]) in srcs
+    ctx.check(an["law_ok"] and rooted, "R16.2", vb.loc(), "token|acceptance-shape",
+              "token validator must return true exactly when the '='-stripped text is non-empty and every unit of it passes the predicate"
+              + (f" — {an['witness']}" if an["witness"] else "") + ("" if rooted else " — the tests do not look at the stripped text"),
+              instance="validator: true iff !stripped.is_empty() && all(valid) (truth table over both conditions)")
 
 
 def predicate_set(ctx, co, pb):
